@@ -3,9 +3,13 @@
 // (A) and (B): 2/2 pass in debug and release; the text and recorded runs for (A)/(B) describe the tree BEFORE the repair.
 // Regression guards: Verus unit block_accessor (is_contiguous is a run test for ANY block; fetch_block on a Full column proved for any block),
 // mutant specs/mutants/block_accessor/is_contiguous_endpoints_only.patch (= the revert).
-// RESIDUAL (NOT repaired, test (C) below): the out-of-order blocks still reach sub-aggregations; a sub-aggregation with a `missing`
-// parameter on a NON-full column runs find_missing_docs (a merge of two sorted lists) on such a block and reports a document that
-// HAS a value as missing as well.
+// Test (C) (the residual: out-of-order blocks reaching a sub-aggregation with a `missing` parameter on a non-full column) REPAIRED in /repo
+// by the commit "fix: fetch_block_with_missing appended the missing docs after the docs with values": the missing docs are now merged
+// into the docs with values (in place, from the end), so the (doc, value) pairs stay sorted by doc and a terms bucket hands ascending
+// docs to its sub-aggregations.  On the tree with both repairs main ran the demo: 3/3 ok.  The recorded FAILED run of (C) at the end of
+// this file is from the tree with only the first repair.
+// Regression guards for (C): Verus unit block_accessor (fetch_block_with_missing: pairs == [(d, v) for d in docs, for v in (values(d) or
+// [missing])], cache sorted by doc), mutants specs/mutants/block_accessor/merge_*.patch.
 //
 // Candidate finding F-blockacc-unsorted-block (C14 / C08, Verus unit block_accessor):
 // "For any aggregation request (... terms with ... missing, ... histogram ..., nested sub-aggregations), the result over the documents
@@ -117,7 +121,7 @@ fn histogram_on_multivalued_column_with_sum_sub_agg() {
     assert!(s == 101.0 || s == 102.0, "sum of bucket [0,10) is {s}: includes val=10 of doc 1, which is in bucket 50");
 }
 
-// (C) RESIDUAL.  doc0 cat=1 opt=10 | doc1 cat=2 opt=1000 | doc2 (no cat) opt=20 | doc3 cat=1 (no opt) ; terms(cat, missing: 1) / sum(opt, missing: 5)
+// (C) (was the RESIDUAL after the first repair; text below describes the tree before the second repair)  doc0 cat=1 opt=10 | doc1 cat=2 opt=1000 | doc2 (no cat) opt=20 | doc3 cat=1 (no opt) ; terms(cat, missing: 1) / sum(opt, missing: 5)
 // bucket 1 receives the block [0, 3, 2] (missing doc 2 appended after doc 3).  fetch_block_with_missing on the Optional column `opt`:
 // docid_cache = [0, 2]; find_missing_docs(docs = [0, 3, 2], hits = [0, 2]): 0 == 0; 3 > 2 -> hits exhausted; then 3 AND 2 are reported
 // missing: doc 2 contributes its value 20 and the missing value 5.
